@@ -1880,11 +1880,31 @@ def _det_inv(A):
     return adj, det
 
 
+def _require_not_identically_singular(det):
+    """full rank is a `requires` of the library contract for inv/solve/pinv; a matrix whose determinant is the ZERO polynomial in the
+    symbolic entries (e.g. H H^H of a tall H) violates it for every input: numpy raises LinAlgError there, and so does the model -
+    dividing by it instead would make every cross-multiplied goal read 0 == 0"""
+    from . import poly
+    t = det.t if isinstance(det, Sym) and not isinstance(det, SComplex) else None
+    try:
+        if isinstance(det, SComplex):
+            zero = poly.is_zero(det.re.t) and poly.is_zero(det.im.t)
+        elif t is not None:
+            zero = poly.is_zero(t)
+        else:
+            zero = (det == 0)
+    except Exception:
+        zero = False
+    if zero:
+        raise PyRaise(np.linalg.LinAlgError("Singular matrix"))
+
+
 def m_linalg_inv(interp, A):
     if not contains_sym(A):
         return interp.call_real(np.linalg.inv, [A], {})
     A = obj_array(A)
     adj, det = _det_inv(A)
+    _require_not_identically_singular(det)
     return np.frompyfunc(lambda x: x / det, 1, 1)(adj)
 
 
@@ -1893,6 +1913,7 @@ def m_linalg_solve(interp, A, B):
         return interp.call_real(np.linalg.solve, [A, B], {})
     A, B = obj_array(A), obj_array(B)
     adj, det = _det_inv(A)
+    _require_not_identically_singular(det)
     X = np.dot(adj, B)
     return np.frompyfunc(lambda x: x / det, 1, 1)(X)
 
@@ -1932,6 +1953,7 @@ def m_linalg_pinv(interp, A, *a, **k):
         raise EngineError("symbolic pinv only modelled for tall/square full-column-rank matrices")
     AH = np.frompyfunc(lambda v: v.conjugate() if hasattr(v, 'conjugate') else v, 1, 1)(A).T
     adj, det = _det_inv(np.dot(AH, A))
+    _require_not_identically_singular(det)
     return np.frompyfunc(lambda x: x / det, 1, 1)(np.dot(adj, AH))
 
 
@@ -2045,6 +2067,28 @@ DEFAULT_MODELS[np.fft.ifft] = _fft_model(np.fft.ifft, True)
 DEFAULT_MODELS[np.linalg.pinv] = m_linalg_pinv
 DEFAULT_MODELS[np.angle] = m_np_angle
 DEFAULT_MODELS[np.array] = m_np_array
+
+
+def m_np_asarray(interp, x, dtype=None, **k):
+    """np.asarray of symbolic numbers: ideal reals/complexes have one representation, so a numeric dtype request is the identity on
+    the values (an existing object array is returned as is, like np.asarray of an array that already has the dtype)"""
+    if contains_sym(x):
+        if isinstance(x, np.ndarray) and x.dtype == object:
+            return x
+        return m_np_array(interp, x)
+    return interp.call_real(np.asarray, [x], dict(dtype=dtype, **k) if dtype is not None else k)
+
+
+def m_np_flatnonzero(interp, x):
+    """indices of the true entries; every symbolic boolean is decided (path split) so that the result is a concrete index array"""
+    if not contains_sym(x):
+        return interp.call_real(np.flatnonzero, [x], {})
+    flat = np.asarray(x, dtype=object).ravel()
+    return np.array([i for i, v in enumerate(flat) if interp.truth(v if isinstance(v, (Sym, SBool)) else bool(v))], dtype=np.int64)
+
+
+DEFAULT_MODELS[np.asarray] = m_np_asarray
+DEFAULT_MODELS[np.flatnonzero] = m_np_flatnonzero
 DEFAULT_MODELS[np.linalg.inv] = m_linalg_inv
 DEFAULT_MODELS[np.linalg.solve] = m_linalg_solve
 DEFAULT_MODELS[np.linalg.norm] = m_linalg_norm
